@@ -19,7 +19,25 @@ NA = {
     "C18": "value round trip through real setpriority/ioprio_set/sched_setaffinity/prlimit implemented in C plus pure argument validation; simulating the kernel would remove the code under test (delivery to the right PID/value is checked under C01)",
 }
 
+_PT_NOTE = ("Trusted base: the SimKernel model (process table, PID allocator, procfs rendering, kill/setpriority/ioprio_set/sched_setaffinity/prlimit argument ranges and errnos), the import-window seam substitution, CPython. Assumes no PID reuse within the start tick of the previous owner and no reuse between the identity re-check and the delivering syscall of one call (DESIGN 9/C01).")
+_PT_TECH = "deterministic simulation: seeded histories of spawn/exit/reap/PID-reuse events between and inside psutil calls over a simulated kernel; reference-model oracle over the kernel's effects log; ddmin-shrunk replay files"
 TEXT = {
+    "C01": dict(
+        technique=_PT_TECH,
+        text="Seeded search over histories (tiny PID ranges force reuse; events fire between calls and just before the n-th procfs access inside a call). The oracle reads the simulated kernel's effects log: every signal/setting caused by a handle must reach the incarnation the handle was created for, with the exact payload; a call on a recycled PID must raise NoSuchProcess and deliver nothing; no kill() with pid <= 0 ever. Sampled, not exhaustive: a clean batch is evidence, not proof.",
+        note=_PT_NOTE, ref="DESIGN.md section 9, C01"),
+    "C02": dict(
+        technique=_PT_TECH + "; wall-clock steps as events",
+        text="Same histories plus wall-clock steps (the published btime moves) and interleaved boot_time()/create_time()/process_iter(); for every pair of handles ==/hash() must follow (pid, incarnation) and is_running() must follow the incarnation's presence in the table, be sticky once False and never be resurrected by PID reuse. Sampled.",
+        note=_PT_NOTE, ref="DESIGN.md section 9, C02"),
+    "C04": dict(
+        technique=_PT_TECH + "; overlapping iterators",
+        text="Histories of table changes between and during pids()/pid_exists()/process_iter() (complete, partial, with attrs, overlapping generators, cache_clear): listing equality at the listing access, ascending/unique/listed yields, object identity across successive non-overlapping complete iterations, eviction, refresh after is_running() found a recycled PID, eventual coherence after overlap. Sampled.",
+        note=_PT_NOTE + " Two-thread iteration is explored by the threads engine when built; here overlap is produced with interleaved generators in one thread.", ref="DESIGN.md section 9, C04"),
+    "C05": dict(
+        technique=_PT_TECH + "; arbitrary parent-link graphs",
+        text="Quiescent tables with arbitrary parent links (forests, self-loops, cycles, unlisted parents, equal/inverted start times) are compared exactly with a breadth-first reference; moving tables (events inside the scan) are checked for soundness; termination is enforced by a seam-call budget; recycled callers must raise NoSuchProcess. Sampled.",
+        note=_PT_NOTE + " parents() is not judged on tables whose reference parent chain is endless (self-parent / equal-age cycle): the statement promises termination for children() only.", ref="DESIGN.md section 9, C05"),
     "C03": dict(
         technique="deterministic simulation: seeded worlds + enumerated fault injection at every OS access index (fork-per-run, trace digest, ddmin-shrunk replay files)",
         text="For every seeded world, every Process query method is run once fault-free to number its OS accesses, then once per (pid-related access k) x {process vanishes, turns zombie, EACCES, EPERM} plus sampled two-fault sequences; each outcome must be a well-shaped value or NoSuchProcess/ZombieProcess/AccessDenied with the right cause and pid, and after a vanish every getter must raise NoSuchProcess. Exhaustive in (method, access, fault kind) per world, sampled over worlds: evidence, not proof.",
